@@ -14,14 +14,14 @@ EXTENDS Program, Json, IOUtils, TraceCommon
 Progs == ndJsonDeserialize(IOEnv.VERIF_PROGS)
 Rec   == ndJsonDeserialize(IOEnv.VERIF_TRACE)
 
-VARIABLES prog, pv, stage, ep, doc, dec, ran, res,
+VARIABLES prog, pv, stage, ep, doc, dec, ran, res, origin,
           l,     \* next event to consume
           fx     \* what the flight in progress was delivered with (logged, not modelled by Runtime)
 INSTANCE Runtime WITH Programs <- Progs
 
-tvars == <<prog, pv, stage, ep, doc, dec, ran, res, l, fx>>
+tvars == <<prog, pv, stage, ep, doc, dec, ran, res, origin, l, fx>>
 
-NoFx == [via |-> "", env |-> <<>>, docj |-> <<>>, method |-> "", part |-> "", lastpv |-> <<>>, lastsv |-> "", lastdoc |-> <<>>, lastdec |-> NoDec]
+NoFx == [via |-> "", env |-> <<>>, docj |-> <<>>, method |-> "", part |-> "", lastpv |-> <<>>, lastsv |-> "", lastdoc |-> <<>>, lastdec |-> NoDec, remote |-> <<>>]
 
 ProgIx(id) == CHOOSE i \in 1..Len(Progs) : Progs[i].id = id
 PartIx(q, pid) == CHOOSE i \in 1..Len(q.parts) : q.parts[i].id = pid
@@ -33,7 +33,7 @@ IsEvent(name) == l <= Len(Rec) /\ Rec[l].ev = name /\ l' = l + 1
 TInit ==
     /\ l = 1 /\ TLCSet(1, 1)
     /\ prog = 1 /\ pv = <<>> /\ stage = "fresh"
-    /\ ep = "none" /\ doc = NoDoc /\ dec = NoDec /\ ran = <<>> /\ res = "none"
+    /\ ep = "none" /\ doc = NoDoc /\ dec = NoDec /\ ran = <<>> /\ res = "none" /\ origin = Chain
     /\ fx = NoFx
 
 (* ---- a program was built and starts running --------------------------- *)
@@ -42,7 +42,7 @@ TrReset ==
     /\ prog' = ProgIx(E.prog)
     /\ Chk("C05", "a_program_that_compiles_has_no_shared_name", l, Progs[ProgIx(E.prog)].accepted)
     /\ stage' = "idle"
-    /\ pv' = <<>> /\ ep' = "none" /\ doc' = NoDoc /\ dec' = NoDec /\ ran' = <<>> /\ res' = "none"
+    /\ pv' = <<>> /\ ep' = "none" /\ doc' = NoDoc /\ dec' = NoDec /\ ran' = <<>> /\ res' = "none" /\ origin' = Chain
     /\ fx' = NoFx
 
 (* ---- the list a part publishes ---------------------------------------- *)
@@ -52,7 +52,7 @@ TrLists ==
     /\ Chk("BIND", "lists_part_exists", l, HasPart(P, E.part))
     /\ Chk("C05", "published_list_is_sorted_set_of_serialised_names", l,
            E.listed = P.parts[PartIx(P, E.part)].lists[E.kind])
-    /\ UNCHANGED <<prog, pv, stage, ep, doc, dec, ran, res, fx>>
+    /\ UNCHANGED <<prog, pv, stage, ep, doc, dec, ran, res, origin, fx>>
 
 (* ---- a message value built by the program, encoded and decoded -------- *)
 MethodOf(q, pid, name) == CHOOSE m \in Range(q.parts[PartIx(q, pid)].methods) : m.name = name
@@ -65,7 +65,7 @@ TrEncode ==
           /\ Chk("C01", "json_is_name_keyed_object_of_own_argument_encodings", l, IsMsgJsonE(E.json, m, vals))
           /\ Chk("C01", "parsing_own_json_gives_equal_message", l, E.roundtrip)
           /\ Chk("C01", "parsing_the_specifications_document_gives_equal_message", l, E.spec_doc_eq)
-    /\ UNCHANGED <<prog, pv, stage, ep, doc, dec, ran, res, fx>>
+    /\ UNCHANGED <<prog, pv, stage, ep, doc, dec, ran, res, origin, fx>>
 
 (* ---- a document arrives ------------------------------------------------ *)
 DocOf(e) == [shape |-> e.shape, key |-> e.key, body |-> e.body]
@@ -80,7 +80,14 @@ TrDeliver ==
     /\ IsEvent("Deliver")
     /\ Chk("BIND", "document_has_the_requested_shape", l, ShapeMatches(E))
     /\ Chk("C06", "documents_are_only_delivered_to_emitted_entry_points", l, E.ep \in EpKinds(P))
-    /\ Deliver(E.ep, DocOf(E))
+    /\ IF E.remote = ""
+       THEN Deliver(E.ep, DocOf(E))
+       ELSE /\ Chk("BIND", "remote_flight_follows_its_RemoteMsg", l, fx.remote # <<>> /\ fx.remote.helper = E.remote)
+            /\ Chk("C10", "the_delivered_document_is_the_message_the_helper_built", l, E.doc = fx.remote.body)
+            /\ LET pid == IF E.remote = "instantiate" THEN "own" ELSE E.part
+                    m == IF E.remote = "instantiate" THEN EMethodsOf(P.parts[PartIx(P, "own")], "instantiate")[1]
+                         ELSE MethodOf(P, E.part, E.method)
+               IN RemoteSend(PartIx(P, pid), m)
     /\ Chk("BIND", "mt_flight_repeats_the_previous_document", l, E.via = "mt" => fx.lastdoc = E.doc)
     /\ fx' = [fx EXCEPT !.via = E.via, !.env = E.env, !.docj = E.doc, !.method = E.method, !.part = E.part,
                         !.lastdoc = E.doc]
@@ -101,7 +108,7 @@ TrWrapperDecode ==
        /\ dec' = [verdict |-> IF E.verdict = "ok" THEN "ok" ELSE "err",
                   part |-> IF E.verdict = "ok" /\ HasPart(P, E.part) THEN PartIx(P, E.part) ELSE 0, why |-> "observed"]
        /\ stage' = "decoded"
-       /\ UNCHANGED <<prog, ep, doc, ran, res>>
+       /\ UNCHANGED <<prog, ep, doc, ran, res, origin>>
        /\ Chk("C03", "accepts_iff_exactly_one_part_accepts", l,
               (E.verdict = "ok") <=> (Cardinality({i \in DOMAIN o : o[i]}) = 1))
        /\ Chk("C03", "decodes_to_that_parts_value", l,
@@ -131,7 +138,7 @@ TrStructDecode ==
 TrSilentDecode ==
     /\ stage = "delivered" /\ fx.via = "mt"
     /\ IF ep \in EnumKinds
-       THEN /\ pv' = fx.lastpv /\ dec' = fx.lastdec /\ stage' = "decoded" /\ UNCHANGED <<prog, ep, doc, ran, res>>
+       THEN /\ pv' = fx.lastpv /\ dec' = fx.lastdec /\ stage' = "decoded" /\ UNCHANGED <<prog, ep, doc, ran, res, origin>>
        ELSE StructDecode(fx.lastsv) /\ UNCHANGED pv
     /\ UNCHANGED <<l, fx>>
 
@@ -191,7 +198,45 @@ TrReturn ==
                    E.verdict = "err" /\ E.mark = "" /\ E.err.class \in {"decode", "std"})
     /\ UNCHANGED <<pv, fx>>
 
-TStep == TrReset \/ TrLists \/ TrEncode \/ TrDeliver \/ TrWrapperDecode \/ TrStructDecode
+
+(* ---- remote helpers (C10) ------------------------------------------------ *)
+ArgVals(e) == [i \in 1..Len(e.args) |-> e.args[i].json]
+ArgNamesOf(e) == [i \in 1..Len(e.args) |-> e.args[i].n]
+TrRemoteMsg ==
+    /\ IsEvent("RemoteMsg")
+    /\ stage \in {"idle", "returned"}
+    /\ Chk("C10", "helper_builds_a_message", l, E.verdict = "ok")
+    /\ IF E.verdict # "ok" THEN TRUE
+       ELSE IF E.helper \in {"exec", "query"}
+       THEN LET m == MethodOf(P, E.part, E.method) IN
+            /\ Chk("C10", "message_is_addressed_to_the_handles_contract", l, E.addr = E.handle_addr)
+            /\ Chk("C10", "message_carries_the_funds_set_on_the_builder", l, E.funds = E.funds_set)
+            /\ Chk("C10", "executor_builds_an_execute_and_querier_a_smart_query", l,
+                   E.kind = (IF E.helper = "exec" THEN "execute" ELSE "smart"))
+            /\ Chk("C10", "body_is_that_methods_message_with_the_given_arguments", l,
+                   ArgNamesOf(E) = ArgNames(m) /\ IsMsgJsonE(E.body, m, ArgVals(E)))
+       ELSE IF E.helper = "instantiate"
+       THEN LET m == EMethodsOf(P.parts[PartIx(P, "own")], "instantiate")[1] IN
+            /\ Chk("C10", "instantiate_builder_keeps_code_id_admin_label_funds_and_salt", l,
+                   /\ E.code_id = E.code_id_set /\ E.label = E.label_set /\ E.admin = E.admin_set
+                   /\ E.funds = E.funds_set /\ E.salt = E.salt_set
+                   /\ E.kind = (IF E.handle = "salted" THEN "instantiate2" ELSE "instantiate"))
+            /\ Chk("C10", "body_is_the_instantiate_message_with_the_given_arguments", l,
+                   ArgNamesOf(E) = ArgNames(m) /\ IsMsgJsonE(E.body, m, ArgVals(E)))
+       ELSE /\ Chk("C10", "admin_helper_addresses_the_handles_contract", l,
+                   E.addr = E.handle_addr /\ E.admin = E.admin_set /\ E.kind = E.helper)
+    /\ fx' = [fx EXCEPT !.remote = E]
+    /\ UNCHANGED <<prog, pv, stage, ep, doc, dec, ran, res, origin>>
+
+TrRemoteQueryReturn ==
+    /\ IsEvent("RemoteQueryReturn")
+    /\ stage \in {"idle", "returned"}
+    /\ LET m == MethodOf(P, E.part, E.method) IN
+       Chk("C10", "query_helper_returns_the_decoded_response_of_that_query", l,
+           IF m.outcome = "ok" THEN E.verdict = "ok" /\ E.value = QRespJson(m) ELSE E.verdict = "err")
+    /\ UNCHANGED <<prog, pv, stage, ep, doc, dec, ran, res, origin, fx>>
+
+TStep == TrRemoteMsg \/ TrRemoteQueryReturn \/ TrReset \/ TrLists \/ TrEncode \/ TrDeliver \/ TrWrapperDecode \/ TrStructDecode
          \/ TrSilentDecode \/ TrHandler \/ TrReturn
 
 (* the design-level invariants of Runtime.tla, evaluated in every state the trace reaches *)
@@ -202,6 +247,7 @@ InvariantsHold ==
     /\ Chk("C02", "invariant_C02_ExactlyOne", l, C02_ExactlyOne')
     /\ Chk("C05", "invariant_C05_NoSharedName", l, C05_NoSharedName')
     /\ Chk("C06", "invariant_C06_OnlyEmitted", l, C06_OnlyEmitted')
+    /\ Chk("C10", "invariant_C10_RemoteRoutesBack", l, C10_RemoteRoutesBack')
 TNext == TStep /\ InvariantsHold /\ TLCSet(1, l')
 TSpec == TInit /\ [][TNext]_tvars
 
